@@ -66,6 +66,18 @@ def rand_spec(seed, chains=False):
         r0 = reifs[0]
         reifs.append([':twin', r0[1], r0[3], r0[2]])
         roles[':twin'] = {}
+    # (later additions draw after everything above, so the earlier parts of each table stay as they were)
+    if rng.random() < 0.5 and lit_defined:
+        # a plain alias: a normalisation whose key has nothing to do with inversion
+        norms[':loc'] = rng.choice(lit_defined)
+        if rng.random() < 0.5:
+            norms[':abbr'] = rng.choice(lit_defined)
+    if reifs and rng.random() < 0.5 and seed % 5 != 0:
+        # one concept serving two roles with disjoint argument roles (like AMR's have-org-role-91):
+        # still unambiguous
+        other = cands[2] if len(cands) > 2 else ':shared'
+        roles.setdefault(other, {})
+        reifs.append([other, reifs[0][1], ':in9', ':out9'])
     for rf in reifs:
         roles.setdefault(rf[2], {})
         roles.setdefault(rf[3], {})
